@@ -49,6 +49,8 @@ structure St where
   calls : List (Nat Ã— Nat) := []
   /-- roots filtered by some processor so far -/
   filtered : List Nat := []
+  /-- roots for which some processor returned an error record so far -/
+  errored : List Nat := []
   /-- per destination: (root, exact tag, confirmed) of every record written so far -/
   written : List (Nat Ã— Nat Ã— Nat Ã— Bool) := []
   /-- roots with a confirmed DLQ write / with any DLQ write -/
@@ -78,7 +80,10 @@ def step (tree : TaskNode) (scripts : List (Nat Ã— List Reply)) (s : St) : Ev â†
         | .filter => some (root r)
         | .multi [] => some (root r)
         | _ => none
-      { s with filtered := s.filtered ++ fs }
+      let es := (recs.zip out).filterMap fun (r, o) => match o with
+        | .error _ => some (root r)
+        | _ => none
+      { s with filtered := s.filtered ++ fs, errored := s.errored ++ es }
     | _ => s
   | .write task recs =>
     let call := callNo s task
@@ -123,6 +128,11 @@ def step (tree : TaskNode) (scripts : List (Nat Ã— List Reply)) (s : St) : Ev â†
         let viaDests := (dests tree).all fun d =>
           let ws := s.written.filter fun w => w.1 == d && w.2.1 == root r
           ws.all (Â·.2.2.2) && (!ws.isEmpty || s.filtered.contains (root r))
+        -- C08: a record a processor errored on, or of which a destination rejected a piece, has
+        -- exactly one outcome: dead-lettered (never delivered-and-acked as a success)
+        let failedPiece := s.written.any fun w => w.2.1 == root r && !w.2.2.2
+        let s := if (s.errored.contains (root r) || failedPiece) && !viaDlq then
+            viol s s!"C08 record {root r} failed (processor error / rejected piece) but was acked without being dead-lettered" else s
         -- C07: a failed DLQ write never results in an ack
         let s := if s.dlqAny.contains (root r) && !viaDlq then viol s s!"C07 record {root r} acked after an unconfirmed DLQ write" else s
         if viaDlq || viaDests then s else viol s s!"C01 unjustified ack of record {root r}") s
